@@ -31,6 +31,7 @@ def replay_history(vec, fmt="delimited"):
     keep = []
     findings = []
     prepared = {}
+    last_reader = None
     for index, entry in enumerate(vec["hist"]):
         run = entry["run"]
         # readers that the history creates now and iterates after this run (Park / Resume)
@@ -40,8 +41,18 @@ def replay_history(vec, fmt="delimited"):
         expected = sessionlib.normalise_expected(shape, run, entry["fresh"])
         if run["op"] == "write":
             observed = sessionlib.run_write(shape, cid, run, keep, release=True)
+            last_reader = None
         else:
-            observed = sessionlib.run_read(shape, cid, run, keep, prepared.pop(index, None), release=True)
+            again = None
+            if run.get("again"):
+                # rows() once more on the reader of the run before, which was not closed; the caller rewinds the source
+                if last_reader is None:
+                    raise core.MachineryError("history reads a reader again that does not exist: %r" % (run,))
+                last_reader[1].seek(0)
+                again = (last_reader[0], vec["hist"][index - 1].get("_text", ""))
+            observed = sessionlib.run_read(shape, cid, run, keep, again or prepared.pop(index, None), release=True)
+            last_reader = observed.pop("_reader", None)
+            entry["_text"] = observed["text"]
         counters = run["op"] == "write" or run["api"] == "reader"
         problems = sessionlib.differences(run, expected, observed, counters)
         if run["op"] == "write" and not observed["stream_ok"]:
@@ -52,6 +63,11 @@ def replay_history(vec, fmt="delimited"):
             if not sessionlib.differences(run, pinned, observed, counters) and not (
                     run["op"] == "write" and not observed["stream_ok"]):
                 signature = "register-on-reach"
+            elif run["op"] == "write" and "pinnedrbw" in entry and observed["stream_ok"]:
+                # known finding D14: the checks have seen a row that the container then refuses
+                pinned = sessionlib.normalise_expected(shape, run, entry["pinnedrbw"])
+                if not sessionlib.differences(run, pinned, observed, counters, tolerate_readback_end=entry.get("rbwBackDiffers", False)):
+                    signature = "register-before-write"
             findings.append((index, problems, signature, observed))
     return findings
 
